@@ -49,6 +49,7 @@ inductive Outcome where
   | renameFailed (e : Errno)        -- rename failed, rollback succeeded
   | rollbackFailed (e : Errno)      -- rename failed and the rollback reported errors
   | backupFailed      -- everything applied, then `generate_reverse_patches` could not read a file
+  | destExists        -- pre-flight: a rename destination already exists; nothing was changed
   deriving DecidableEq, Repr
 
 structure Result where
@@ -166,7 +167,14 @@ def backupPhase (r : Result) (files : List Path) : Result :=
   if files.all (fun f => readable r.tree (currentPath r.performed f)) then r
   else { r with outcome := .backupFailed }
 
+/-- pre-flight of `apply_plan`: no planned destination may exist on disk (`symlink_metadata(new_path).is_ok()`);
+    the case-only exception needs both names to be the same file, which on a case-sensitive filesystem
+    (the one modelled) never holds for distinct paths -/
+def preflightOk (t : Tree) (rs : List Ren) : Bool :=
+  rs.all (fun r => r.newPath.isEmpty || r.newPath == r.path || (lookup t r.newPath).isNone)
+
 def applyPlan (t : Tree) (p : Plan) : Result :=
+  if !preflightOk t p.rens then { outcome := .destExists, tree := t } else
   match contentPhase p.hunks t (sortedFiles p.hunks) with
   | (.ok, t1) =>
     let r := renamePhase t1 [] (sortRens p.rens)
